@@ -19,6 +19,7 @@ package main
 
 import (
 	"encoding/json"
+	"errors"
 	"fmt"
 	"sort"
 	"strings"
@@ -29,6 +30,7 @@ import (
 type c11Spec struct {
 	Kind string  `json:"kind"` // cont | table
 	Mode string  `json:"mode,omitempty"`
+	Ek   int     `json:"ek,omitempty"` // kind of the first error raised (the rest cycle through the kinds)
 	Ops  []c11Op `json:"ops"`
 }
 
@@ -43,12 +45,13 @@ type c11Op struct {
 	When   int    `json:"when,omitempty"`  // 0 add, 1 render-precell, 2 render, 3 render-postcell
 	Target int    `json:"target,omitempty"`
 	Pat    int    `json:"pat,omitempty"` // 0 always fails, 1 fails on odd firings, 2 returns nil
+	Ek     int    `json:"ek,omitempty"`  // reg: 0 = kinds cycle, k+1 = this callback's errors are all of kind k
 	How    int    `json:"how,omitempty"` // newrow: 0 NewRow(), 1 NewRowWithCapacity(n), 2 t.NewRowSizedFor()
 }
 
 type c11Err struct{ id int }
 
-func (e *c11Err) Error() string { return fmt.Sprintf("harness error #%d", e.id) }
+func (e *c11Err) Error() string { return c11Msg(e.id) }
 
 const c11Sentinel = 999999
 
@@ -99,28 +102,133 @@ func (v c11View) eq(w c11View) bool {
 	return true
 }
 
+// Error values are opaque to the library: whatever their dynamic type (plain,
+// joined, wrapping, a multi-error with no causes, comparable or not) the value
+// that was raised is the value that must come back from Errors(), once.  The
+// harness therefore raises errors of several kinds; the parts a compound error
+// is made of get ids of their own and must never show up in any list.  The
+// message of error #n starts with a letter that DEscends as n grows, so the
+// order of occurrence is never the alphabetical one.
+const c11Kinds = 7
+
+var c11KindName = []string{"plain", "errors.Join", "fmt.Errorf(%w,%w)", "multi(Unwrap []error)", "multi-without-causes", "wrap(Unwrap error)", "non-comparable multi"}
+
+func c11Msg(id int) string {
+	return fmt.Sprintf("%c%c harness error #%d", 'z'-byte(id%26), 'a'+byte(id*7%26), id)
+}
+
+type c11Multi struct {
+	id    int
+	parts []error
+}
+
+func (e *c11Multi) Error() string   { return c11Msg(e.id) }
+func (e *c11Multi) Unwrap() []error { return e.parts }
+
+type c11Empty struct{ id int } // a comparable value type
+
+func (e c11Empty) Error() string   { return c11Msg(e.id) }
+func (e c11Empty) Unwrap() []error { return nil }
+
+type c11Wrap struct {
+	id    int
+	cause error
+}
+
+func (e c11Wrap) Error() string { return c11Msg(e.id) }
+func (e c11Wrap) Unwrap() error { return e.cause }
+
+type c11Slice struct { // not comparable: == on it panics
+	id    int
+	parts []error
+}
+
+func (e c11Slice) Error() string   { return c11Msg(e.id) }
+func (e c11Slice) Unwrap() []error { return e.parts }
+
 type c11Ids struct {
 	next       int
+	ek         int // kind of the first raised error; the following ones cycle
+	nRaised    int
+	known      map[error]int // stdlib-made compound errors (pointers)
+	kinds      map[string]string
+	parts      map[int]bool
+	partOf     map[int]int
+	making     int
 	foreign    map[error]int
 	curMisuse  int
 	nForeign   int
 	unexpected []string
+	kindTags   []string
 }
 
-func newC11Ids() *c11Ids { return &c11Ids{foreign: map[error]int{}, curMisuse: -1} }
+func newC11Ids() *c11Ids {
+	return &c11Ids{known: map[error]int{}, kinds: map[string]string{}, parts: map[int]bool{}, partOf: map[int]int{}, foreign: map[error]int{}, curMisuse: -1}
+}
 
-func (x *c11Ids) fresh() (int, error) {
+func (x *c11Ids) part() error {
 	id := x.next
 	x.next++
-	return id, &c11Err{id}
+	x.parts[id] = true
+	x.partOf[id] = x.making
+	return &c11Err{id}
+}
+
+// fresh makes the next distinct error, its kind taken from the cycle
+func (x *c11Ids) fresh() (int, error) { return x.freshKind(-1) }
+
+func (x *c11Ids) freshKind(k int) (int, error) {
+	if k < 0 {
+		k = (x.ek + x.nRaised) % c11Kinds
+	}
+	k %= c11Kinds
+	x.nRaised++
+	id := x.next
+	x.next++
+	x.making = id
+	var e error
+	switch k {
+	case 1:
+		e = errors.Join(x.part(), x.part())
+		x.known[e] = id
+	case 2:
+		e = fmt.Errorf("%s: %w and %w", c11Msg(id), x.part(), x.part())
+		x.known[e] = id
+	case 3:
+		e = &c11Multi{id, []error{x.part(), x.part(), x.part()}}
+	case 4:
+		e = c11Empty{id}
+	case 5:
+		e = c11Wrap{id, x.part()}
+	case 6:
+		e = c11Slice{id, []error{x.part(), x.part()}}
+	default:
+		e = &c11Err{id}
+	}
+	if k != 0 {
+		x.kinds[fmt.Sprintf("e%d", id)] = c11KindName[k]
+	}
+	x.kindTags = append(x.kindTags, "error-kind="+c11KindName[k])
+	return id, e
 }
 
 func (x *c11Ids) idOf(e error) int {
-	if e == nil {
+	switch he := e.(type) {
+	case nil:
 		return -1
-	}
-	if he, ok := e.(*c11Err); ok {
+	case *c11Err:
 		return he.id
+	case *c11Multi:
+		return he.id
+	case c11Empty:
+		return he.id
+	case c11Wrap:
+		return he.id
+	case c11Slice:
+		return he.id
+	}
+	if id, ok := x.known[e]; ok {
+		return id
 	}
 	if id, ok := x.foreign[e]; ok {
 		return id
@@ -134,6 +242,17 @@ func (x *c11Ids) idOf(e error) int {
 	x.foreign[e] = 900000 + x.nForeign
 	x.unexpected = append(x.unexpected, e.Error())
 	return x.foreign[e]
+}
+
+// errOf: E / list entry encoding: 0 nil, 1 a fresh error of the cycle's kind, k+2 a fresh error of kind k
+func (x *c11Ids) errOf(code int) (int, error) {
+	switch {
+	case code == 0:
+		return -1, nil
+	case code == 1:
+		return x.fresh()
+	}
+	return x.freshKind(code - 2)
 }
 
 func (x *c11Ids) view(es []error) c11View {
@@ -177,19 +296,21 @@ type c11StepDesc struct {
 }
 
 type c11Desc struct {
-	Sig     string        `json:"sig"`
-	Kind    string        `json:"kind"`
-	Mode    string        `json:"mode,omitempty"`
-	Steps   []c11StepDesc `json:"steps"`
-	Skipped int           `json:"ops_skipped_as_outside_the_domain,omitempty"`
-	Foreign []string      `json:"unexpected_library_errors,omitempty"`
-	Go      string        `json:"go_snippet,omitempty"`
+	Sig     string            `json:"sig"`
+	Kind    string            `json:"kind"`
+	Mode    string            `json:"mode,omitempty"`
+	Steps   []c11StepDesc     `json:"steps"`
+	Skipped int               `json:"ops_skipped_as_outside_the_domain,omitempty"`
+	Foreign []string          `json:"unexpected_library_errors,omitempty"`
+	Kinds   map[string]string `json:"kinds_of_the_non_plain_errors,omitempty"`
+	Go      string            `json:"go_snippet,omitempty"`
 }
 
 // ------------------------------------------------------------ container cases
 
 func c11RunCont(sp c11Spec) CaseOut {
 	x := newC11Ids()
+	x.ek = sp.Ek
 	var ec *tabular.ErrorContainer
 	mode := "MNew"
 	goSnip := []string{}
@@ -216,13 +337,14 @@ func c11RunCont(sp c11Spec) CaseOut {
 		var a, b c11View
 		var el []error
 		size++
+		size += c11KindCost(op)
 		var act func()
 		switch op.Op {
 		case "add":
 			var e error
 			id := -1
 			if op.E != 0 {
-				id, e = x.fresh()
+				id, e = x.errOf(op.E)
 				raised++
 			}
 			coqOp = "OpAdd " + c11ErrCoq(id)
@@ -241,7 +363,7 @@ func c11RunCont(sp c11Spec) CaseOut {
 				for i, k := range *op.L {
 					id := -1
 					if k != 0 {
-						id, el[i] = x.fresh()
+						id, el[i] = x.errOf(k)
 						raised++
 						if sp.Mode != "nil" {
 							exp = append(exp, id)
@@ -262,6 +384,10 @@ func c11RunCont(sp c11Spec) CaseOut {
 				exp = append(exp, exp...)
 			}
 			act = func() { ec.AddErrorList(ec.Errors()) }
+		case "dump":
+			coqOp = "OpErrors"
+			name = `Errors(); fmt.Sprintf("%#v %v", ec, ec)`
+			act = func() { _ = fmt.Sprintf("%#v %v %d", ec, ec, len(ec.Errors())) }
 		default:
 			coqOp = "OpErrors"
 			name = "Errors()"
@@ -275,7 +401,7 @@ func c11RunCont(sp c11Spec) CaseOut {
 			b = a
 			if el != nil {
 				// the caller reuses its slice: the container must not notice
-				_, s := (&c11Ids{next: c11Sentinel}).fresh()
+				var s error = &c11Err{c11Sentinel}
 				for i := range el {
 					el[i] = s
 				}
@@ -316,6 +442,8 @@ func c11RunCont(sp c11Spec) CaseOut {
 					desc.Sig = "D10-addlist-keeps-nil-entries"
 				case a.eq(want) && op.Op == "addlist":
 					desc.Sig = "D10-addlist-aliases-caller-slice"
+				case c11HasPart(x, a.Ids):
+					desc.Sig = "container-part-of-a-compound-error-in-log"
 				default:
 					desc.Sig = "container-wrong-log:" + op.Op
 				}
@@ -326,8 +454,12 @@ func c11RunCont(sp c11Spec) CaseOut {
 	}
 	desc.Go = strings.Join(goSnip, "; ")
 	desc.Foreign = x.unexpected
+	desc.Kinds = x.kinds
 	term := fmt.Sprintf("(CCont %s %s)", mode, cqList(steps))
-	return CaseOut{Coq: term, Desc: desc, Size: size, Tags: c11Uniq(tags), Key: term, Nontrivial: raised > 0}
+	if sp.Ek != 0 {
+		size++
+	}
+	return CaseOut{Coq: term, Desc: desc, Size: size, Tags: c11Uniq(append(tags, x.kindTags...)), Key: term, Nontrivial: raised > 0}
 }
 
 func c11ErrName(id int) string {
@@ -337,6 +469,15 @@ func c11ErrName(id int) string {
 	return fmt.Sprintf("e%d", id)
 }
 
+func c11HasPart(x *c11Ids, ids []int) bool {
+	for _, id := range ids {
+		if x.parts[id] {
+			return true
+		}
+	}
+	return false
+}
+
 func c11Has(xs []int, v int) bool {
 	for _, x := range xs {
 		if x == v {
@@ -344,6 +485,31 @@ func c11Has(xs []int, v int) bool {
 		}
 	}
 	return false
+}
+
+func c11KindCost(op c11Op) int {
+	n := 0
+	if op.Ek != 0 {
+		n++
+	}
+	if op.E > 1 {
+		n++
+	}
+	if op.L != nil {
+		for _, k := range *op.L {
+			if k > 1 {
+				n++
+			}
+		}
+	}
+	return n
+}
+
+func c11Min3(n int) int {
+	if n > 3 {
+		return 3
+	}
+	return n
 }
 
 func c11Uniq(xs []string) []string {
@@ -364,6 +530,7 @@ type c11Cb struct {
 	h              *c11Table
 	set            string // tableItself tableCell tableRow colItself colCell rowItself rowCell cell
 	when, pat, cnt int
+	ek             int
 }
 
 type c11Table struct {
@@ -557,7 +724,7 @@ func (cb *c11Cb) UpdateProperties(o tabular.PropertyOwner) error {
 		h.emit(fmt.Sprintf("CF %s %d None", site, r), fmt.Sprintf("callback at %s for row %d returns nil", site, r))
 		return nil
 	}
-	id, e := h.x.fresh()
+	id, e := h.x.freshKind(cb.ek - 1)
 	origin := "cb:" + site
 	if site == "SRowCellAdd" && !h.joined[r] && h.rows[r] != nil && h.rows[r].ErrorContainer == nil {
 		origin += ":row-without-container"
@@ -603,7 +770,7 @@ func (h *c11Table) register(op c11Op) (string, bool) {
 	default:
 		return "", false
 	}
-	cb := &c11Cb{h: h, set: set, when: op.When % 4, pat: op.Pat}
+	cb := &c11Cb{h: h, set: set, when: op.When % 4, pat: op.Pat, ek: op.Ek}
 	tg := tabular.CB_ON_ITSELF
 	switch op.Target % 3 {
 	case 1:
@@ -621,7 +788,7 @@ func (h *c11Table) register(op c11Op) (string, bool) {
 		wh = tabular.CB_AT_RENDER_POSTCELL
 	}
 	err := h.t.RegisterPropertyCallback(owner, wh, tg, cb)
-	name := fmt.Sprintf("t.RegisterPropertyCallback(%s, %s, %s, failing(pat=%d))", oname, c11WhenName[op.When%4], c11TargetName[op.Target%3], op.Pat)
+	name := fmt.Sprintf("t.RegisterPropertyCallback(%s, %s, %s, failing(pat=%d, kind=%d))", oname, c11WhenName[op.When%4], c11TargetName[op.Target%3], op.Pat, op.Ek-1)
 	if err != nil {
 		name += " // refused"
 		h.tags = append(h.tags, "reg-refused")
@@ -697,7 +864,7 @@ func (h *c11Table) do(op c11Op) (name string, act func(), ok bool) {
 		id := -1
 		var e error
 		if op.E != 0 {
-			id, e = h.x.fresh()
+			id, e = h.x.errOf(op.E)
 		}
 		h.emit(fmt.Sprintf("RowAddError %d %s", op.R, c11ErrCoq(id)), fmt.Sprintf("row %d AddError %s", op.R, c11ErrName(id)))
 		h.raise(op.R, id, "rowerr")
@@ -711,7 +878,7 @@ func (h *c11Table) do(op c11Op) (name string, act func(), ok bool) {
 		id := -1
 		var e error
 		if op.E != 0 {
-			id, e = h.x.fresh()
+			id, e = h.x.errOf(op.E)
 		}
 		h.emit("TableAddError "+c11ErrCoq(id), "table AddError "+c11ErrName(id))
 		h.raise(-1, id, "tblerr")
@@ -726,7 +893,7 @@ func (h *c11Table) do(op c11Op) (name string, act func(), ok bool) {
 		for i, k := range *op.L {
 			id := -1
 			if k != 0 {
-				id, el[i] = h.x.fresh()
+				id, el[i] = h.x.errOf(k)
 			}
 			xs = append(xs, c11ErrCoq(id))
 			ns = append(ns, c11ErrName(id))
@@ -805,6 +972,35 @@ func (h *c11Table) do(op c11Op) (name string, act func(), ok bool) {
 		return nm, func() {}, ok
 	case "render":
 		return "t.InvokeRenderCallbacks()", func() { t.InvokeRenderCallbacks() }, true
+	case "dump":
+		// every read-only way of looking at the table: nothing may change
+		h.tags = append(h.tags, fmt.Sprintf("dump-with-%d-errors-in-table", c11Min3(len(h.expTable))))
+		return `fmt.Sprintf("%#v %v", t, t); t.GoString(); GoString() of every row and cell; Errors(), AllRows(), Headers(), NRows(), NColumns(), CellAt, Location`, func() {
+			_ = fmt.Sprintf("%#v %v %+v", t, t, t)
+			_ = t.GoString()
+			_, _, _, _ = t.Errors(), t.Headers(), t.NRows(), t.NColumns()
+			for i, r := range t.AllRows() {
+				_ = r.GoString()
+				_ = fmt.Sprintf("%#v", r)
+				_, _, _ = r.Errors(), r.Location(), r.IsSeparator()
+				for j := range r.Cells() {
+					c, _ := t.CellAt(tabular.CellLocation{Row: i + 1, Column: j + 1})
+					if c != nil {
+						_ = c.GoString()
+						_ = fmt.Sprintf("%#v %v", c, c)
+						_ = c.Location()
+					}
+				}
+			}
+			for _, r := range h.rows {
+				_ = r.GoString()
+				_ = r.Errors()
+			}
+			for i := range t.Headers() {
+				c := t.Headers()[i]
+				_ = (&c).GoString()
+			}
+		}, true
 	}
 	return "", nil, false
 }
@@ -837,6 +1033,11 @@ func (h *c11Table) classify(got, want c11View, onRow bool, row int) string {
 		if g[id] < w[id] {
 			o := h.origin[id]
 			src := h.srcOf[id]
+			for _, g := range got.Ids {
+				if h.x.parts[g] && h.x.partOf[g] == id {
+					return "compound-error-replaced-by-its-parts"
+				}
+			}
 			switch {
 			case o == "misuse-on-separator":
 				return "D11-separator-misuse-error-not-in-table"
@@ -855,6 +1056,9 @@ func (h *c11Table) classify(got, want c11View, onRow bool, row int) string {
 		if g[id] > w[id] {
 			if id < 0 {
 				return "nil-entry-in-log"
+			}
+			if h.x.parts[id] {
+				return "part-of-a-compound-error-in-log"
 			}
 			if o, ok := h.origin[id]; ok {
 				if onRow && h.srcOf[id] != row {
@@ -877,6 +1081,7 @@ func (h *c11Table) classify(got, want c11View, onRow bool, row int) string {
 func c11RunTable(sp c11Spec) CaseOut {
 	h := &c11Table{x: newC11Ids(), t: tabular.New(), rows: map[int]*tabular.Row{}, rowID: map[*tabular.Row]int{},
 		joined: map[int]bool{}, sep: map[int]bool{}, hdrID: 0, nextHdr: 100, pending: map[int][]int{}, origin: map[int]string{}, srcOf: map[int]int{}, wasPending: map[int]bool{}}
+	h.x.ek = sp.Ek
 	desc := c11Desc{Kind: "table"}
 	var steps []string
 	goSnip := []string{"t := tabular.New()"}
@@ -898,6 +1103,7 @@ func c11RunTable(sp c11Spec) CaseOut {
 			size += op.N
 		}
 		size += op.How // the plain constructor is the smaller replay
+		size += c11KindCost(op)
 		goSnip = append(goSnip, name)
 		h.tags = append(h.tags, "op="+op.Op)
 		var tv c11View
@@ -975,8 +1181,12 @@ func c11RunTable(sp c11Spec) CaseOut {
 	}
 	desc.Go = strings.Join(goSnip, "; ")
 	desc.Foreign = h.x.unexpected
+	desc.Kinds = h.x.kinds
 	term := "(CTab " + cqList(steps) + ")"
-	return CaseOut{Coq: term, Desc: desc, Size: size, Tags: c11Uniq(h.tags), Key: term, Nontrivial: h.raised > 0}
+	if sp.Ek != 0 {
+		size++
+	}
+	return CaseOut{Coq: term, Desc: desc, Size: size, Tags: c11Uniq(append(h.tags, h.x.kindTags...)), Key: term, Nontrivial: h.raised > 0}
 }
 
 // ------------------------------------------------------------ generators
@@ -1039,9 +1249,11 @@ var c11Scenario = []c11Op{
 	{Op: "sep", R: 2},
 	{Op: "rowadd", R: 2},
 	{Op: "addrowitems", R: 3, N: 2},
+	{Op: "dump"},
 	{Op: "headers", N: 1},
 	{Op: "render"},
 	{Op: "render"},
+	{Op: "dump"},
 }
 
 // a second build, where the row is in the table before it gets its cells
@@ -1053,6 +1265,7 @@ var c11ScenarioB = []c11Op{
 	{Op: "sep", R: 2},
 	{Op: "rowadd", R: 2},
 	{Op: "render"},
+	{Op: "dump"},
 }
 
 var c11TableAlphabet = []c11Op{
@@ -1071,6 +1284,8 @@ var c11TableAlphabet = []c11Op{
 	{Op: "addrow", R: 3},
 	{Op: "appendnew", R: 4},
 	{Op: "addrowitems", R: 5, N: 1},
+	// looking at everything (%#v, GoString, the read-only accessors)
+	{Op: "dump"},
 }
 
 // c11CreationCases: situation (who already holds errors) x creation path x
@@ -1127,7 +1342,7 @@ func c11CreationCases() []c11Spec {
 					}
 					ops = append(ops, c11Op{Op: "tblerr", E: 1})
 				}
-				ops = append(ops, c11Op{Op: "render"})
+				ops = append(ops, c11Op{Op: "dump"}, c11Op{Op: "render"})
 				out = append(out, c11Spec{Kind: "table", Ops: ops})
 			}
 		}
@@ -1168,11 +1383,13 @@ func c11RandOp(r *RNG, nRows int) c11Op {
 		return c11Op{Op: "sep", R: row}
 	case 13:
 		return c11Op{Op: "headers", N: r.Intn(3)}
-	case 14, 15:
+	case 14:
 		return c11Op{Op: "render"}
+	case 15:
+		return pick(r, []c11Op{{Op: "render"}, {Op: "dump"}, {Op: "dump"}})
 	default:
 		owner := pick(r, []string{"table", "table", "col", "row", "row", "cell"})
-		return c11Op{Op: "reg", Owner: owner, R: row, C: r.Intn(3), When: r.Intn(4), Target: r.Intn(3), Pat: pick(r, []int{0, 0, 0, 1, 2})}
+		return c11Op{Op: "reg", Owner: owner, R: row, C: r.Intn(3), When: r.Intn(4), Target: r.Intn(3), Pat: pick(r, []int{0, 0, 0, 1, 2}), Ek: pick(r, []int{0, 0, 0, 1 + r.Intn(c11Kinds)})}
 	}
 }
 
@@ -1216,6 +1433,13 @@ func c11Gen(r *RNG, tier string) []json.RawMessage {
 			ops := append(append(append([]c11Op{}, c11ScenarioB[:p]...), reg), c11ScenarioB[p:]...)
 			add(c11Spec{Kind: "table", Ops: ops})
 		}
+		// the callback returns a compound / wrapping / cause-less / non-comparable error
+		for k := 1; k < c11Kinds; k++ {
+			g := reg
+			g.Ek = k + 1
+			add(c11Spec{Kind: "table", Ops: append(append(append([]c11Op{}, c11Scenario[:3]...), g), c11Scenario[3:]...)})
+			add(c11Spec{Kind: "table", Ops: append(append(append([]c11Op{}, c11ScenarioB[:2]...), g), c11ScenarioB[2:]...)})
+		}
 	}
 	// tables: every short history over the routing alphabet, with failing
 	// callbacks on the row's cells, the table's cells and the table's rows
@@ -1243,6 +1467,16 @@ func c11Gen(r *RNG, tier string) []json.RawMessage {
 			add(c11Spec{Kind: "table", Ops: append(append([]c11Op{}, pre...), ops...)})
 		})
 	}
+	// every kind of error value through every direct entry point
+	for k := 0; k < c11Kinds; k++ {
+		e := k + 2
+		for _, mode := range []string{"nil", "zero", "new"} {
+			add(c11Spec{Kind: "cont", Mode: mode, Ops: []c11Op{{Op: "add", E: e}, {Op: "dump"}, {Op: "addlist", L: c11L(e, 0, e)}, {Op: "add", E: 1}, {Op: "addself"}, {Op: "dump"}}})
+			add(c11Spec{Kind: "cont", Mode: mode, Ops: []c11Op{{Op: "addlist", L: c11L(e)}, {Op: "add", E: e}, {Op: "dump"}}})
+		}
+		add(c11Spec{Kind: "table", Ops: []c11Op{{Op: "tblerr", E: e}, {Op: "newrow", R: 1}, {Op: "rowerr", R: 1, E: e}, {Op: "rowerr", R: 1, E: e}, {Op: "dump"},
+			{Op: "addrow", R: 1}, {Op: "rowerr", R: 1, E: e}, {Op: "tbllist", L: c11L(e, 0, e)}, {Op: "dump"}, {Op: "sep", R: 2}, {Op: "rowerr", R: 2, E: e}, {Op: "dump"}}})
+	}
 	// tables: every way a row (or the header row) comes to exist, in every
 	// situation of errors already held by the table and by other rows
 	for _, sp := range c11CreationCases() {
@@ -1263,13 +1497,13 @@ func c11Gen(r *RNG, tier string) []json.RawMessage {
 		if r.Pct(50) {
 			ops = append(ops, c11Op{Op: "render"})
 		}
-		add(c11Spec{Kind: "table", Ops: ops})
+		add(c11Spec{Kind: "table", Ek: r.Intn(c11Kinds), Ops: ops})
 	}
 	// random longer container histories
 	for i := 0; i < m/2; i++ {
 		ln := 5 + r.Intn(12)
 		ops := make([]c11Op, 0, ln)
-		al := append(append([]c11Op{}, c11ContAlphabet...), c11Op{Op: "addself"})
+		al := append(append([]c11Op{}, c11ContAlphabet...), c11Op{Op: "addself"}, c11Op{Op: "dump"})
 		for j := 0; j < ln; j++ {
 			if r.Pct(30) {
 				n := r.Intn(6)
@@ -1282,7 +1516,7 @@ func c11Gen(r *RNG, tier string) []json.RawMessage {
 				ops = append(ops, pick(r, al))
 			}
 		}
-		add(c11Spec{Kind: "cont", Mode: pick(r, []string{"nil", "zero", "zero", "new", "new"}), Ops: ops})
+		add(c11Spec{Kind: "cont", Mode: pick(r, []string{"nil", "zero", "zero", "new", "new"}), Ek: r.Intn(c11Kinds), Ops: ops})
 	}
 	return out
 }
@@ -1293,7 +1527,12 @@ func c11Shrink(spec json.RawMessage) []json.RawMessage {
 		return nil
 	}
 	var out []json.RawMessage
-	with := func(ops []c11Op) { out = append(out, mustJSON(c11Spec{Kind: sp.Kind, Mode: sp.Mode, Ops: ops})) }
+	with := func(ops []c11Op) {
+		out = append(out, mustJSON(c11Spec{Kind: sp.Kind, Mode: sp.Mode, Ek: sp.Ek, Ops: ops}))
+	}
+	if sp.Ek != 0 {
+		out = append(out, mustJSON(c11Spec{Kind: sp.Kind, Mode: sp.Mode, Ops: sp.Ops}))
+	}
 	for i := range sp.Ops {
 		with(append(append([]c11Op{}, sp.Ops[:i]...), sp.Ops[i+1:]...))
 	}
@@ -1315,6 +1554,27 @@ func c11Shrink(spec json.RawMessage) []json.RawMessage {
 			o := op
 			o.N--
 			repl(o)
+		}
+		if op.Ek != 0 {
+			o := op
+			o.Ek = 0
+			repl(o)
+		}
+		if op.E > 1 {
+			o := op
+			o.E = 1
+			repl(o)
+		}
+		if op.L != nil {
+			for j, k := range *op.L {
+				if k > 1 {
+					o := op
+					l := append([]int{}, *op.L...)
+					l[j] = 1
+					o.L = &l
+					repl(o)
+				}
+			}
 		}
 		if op.Op == "newrow" && op.How != 0 {
 			o := op
@@ -1347,10 +1607,10 @@ func init() {
 			"&ErrorContainer{} and NewErrorContainer(), the caller overwriting its slice after every AddErrorList; table histories over NewRow, Row.Add " +
 			"(detached, attached, on a separator), Row.AddError, Table.AddError, Table.AddErrorList, AddRow, AppendNewRow, AddRowItems, AddSeparator, AddHeaders, " +
 			"InvokeRenderCallbacks, with failing callbacks registered through RegisterPropertyCallback on table / column / row / cell owners for every target and time, " +
-			"before and after attach; all error values distinct; Errors() of the table, of every row and of the container read after every step; " +
+			"before and after attach; all error values distinct, of 7 dynamic kinds (plain, errors.Join, fmt.Errorf with two %w, custom Unwrap() []error with and without causes, Unwrap() error, non-comparable), with messages never in alphabetical order of occurrence; a dump op (%#v, %v, GoString of table/rows/cells and every read-only accessor) between steps; Errors() of the table, of every row and of the container read after every step; " +
 			"non-trivial = at least one non-nil error is raised; distinct = distinct (history, observations)",
 		Exhaustive: "all 4096 container op sequences of length 4 (hence all shorter ones, as prefixes) over 8 ops x 3 creation modes; every accepted registration " +
-			"(owner x target x time) at every position of a 13-step and of a 7-step build scenario; all table histories of length <= 3 over a 14-op alphabet (routing ops plus NewRowSizedFor/AddRow, AppendNewRow, AddRowItems; thorough: also length 4 over the 10 routing ops); every row-creation path (NewRow, NewRowWithCapacity, NewRowSizedFor, AppendNewRow, AddRowItems, AddHeaders, AddSeparator) x 9 situations of errors already held x 4 uses, each path taken twice",
+			"(owner x target x time) at every position of a 15-step and of an 8-step build scenario, and with the callback returning each of the 7 kinds of error value; all table histories of length <= 3 over a 14-op alphabet (routing ops plus NewRowSizedFor/AddRow, AppendNewRow, AddRowItems; thorough: also length 4 over the 10 routing ops); every row-creation path (NewRow, NewRowWithCapacity, NewRowSizedFor, AppendNewRow, AddRowItems, AddHeaders, AddSeparator) x 9 situations of errors already held x 4 uses, each path taken twice",
 		Gen: c11Gen,
 		Run: func(spec json.RawMessage) CaseOut {
 			var sp c11Spec
